@@ -112,34 +112,34 @@ Proof. repeat split; vm_compute; reflexivity. Qed.
 
 (* ---- the same statements about the function bodies translated from /repo's sources on this run ----
    (tools/rs2v.py -> Extracted/RsInline.v, RsInt.v; primitives in Rs/Prelude.v).  `Require` without `Import`. *)
-From SV Require Rs.Prelude Rs.Proofs Extracted.RsInline Extracted.RsInt.
+From SV Require Rs.Prelude Rs.ProofsInt Extracted.RsInline Extracted.RsInt.
 
 Theorem C10_source_floor_div_exact : forall a b, wf a -> wf b ->
-  div_post (den a) (den b) (SV.Rs.Proofs.to_res (SV.Extracted.RsInt.rs_floor_div a b)).
-Proof. exact SV.Rs.Proofs.source_floor_div_exact. Qed.
+  div_post (den a) (den b) (SV.Rs.ProofsInt.to_res (SV.Extracted.RsInt.rs_floor_div a b)).
+Proof. exact SV.Rs.ProofsInt.source_floor_div_exact. Qed.
 
 Theorem C10_source_percent_exact : forall a b, wf a -> wf b ->
-  mod_post (den a) (den b) (SV.Rs.Proofs.to_res (SV.Extracted.RsInt.rs_percent a b)).
-Proof. exact SV.Rs.Proofs.source_percent_exact. Qed.
+  mod_post (den a) (den b) (SV.Rs.ProofsInt.to_res (SV.Extracted.RsInt.rs_percent a b)).
+Proof. exact SV.Rs.ProofsInt.source_percent_exact. Qed.
 
 Theorem C10_source_shl_exact : forall a b, wf a -> wf b ->
-  shl_post (den a) (den b) (SV.Rs.Proofs.to_res (SV.Extracted.RsInt.rs_left_shift a b)).
-Proof. exact SV.Rs.Proofs.source_shl_exact. Qed.
+  shl_post (den a) (den b) (SV.Rs.ProofsInt.to_res (SV.Extracted.RsInt.rs_left_shift a b)).
+Proof. exact SV.Rs.ProofsInt.source_shl_exact. Qed.
 
 Theorem C10_source_shr_exact : forall a b, wf a -> wf b -> - 2 ^ u64max <= den a < 2 ^ u64max ->
-  shr_post (den a) (den b) (SV.Rs.Proofs.to_res (SV.Extracted.RsInt.rs_right_shift a b)).
-Proof. exact SV.Rs.Proofs.source_shr_exact. Qed.
+  shr_post (den a) (den b) (SV.Rs.ProofsInt.to_res (SV.Extracted.RsInt.rs_right_shift a b)).
+Proof. exact SV.Rs.ProofsInt.source_shr_exact. Qed.
 
 Theorem C10_source_abs_exact : forall a, wf a ->
   wf (SV.Extracted.RsInt.rs_abs a) /\ den (SV.Extracted.RsInt.rs_abs a) = Z.abs (den a).
-Proof. exact SV.Rs.Proofs.source_abs_exact. Qed.
+Proof. exact SV.Rs.ProofsInt.source_abs_exact. Qed.
 
 Theorem C10_source_checked_ops : forall a b,
   SV.Extracted.RsInline.rs_II_checked_add a b = (if in_inline (a + b) then Some (a + b) else None) /\
   SV.Extracted.RsInline.rs_II_checked_sub a b = (if in_inline (a - b) then Some (a - b) else None) /\
   SV.Extracted.RsInline.rs_II_checked_mul_i32 a b = (if in_inline (a * b) then Some (a * b) else None) /\
   SV.Extracted.RsInline.rs_II_checked_neg a = (if in_inline (- a) then Some (- a) else None).
-Proof. exact SV.Rs.Proofs.source_checked_ops. Qed.
+Proof. exact SV.Rs.ProofsInt.source_checked_ops. Qed.
 
 (* `.unwrap()` in left_shift cannot panic; the anyhow!("unreachable") errors cannot be returned *)
 Theorem C10_source_no_panic : forall a b, wf a -> wf b ->
@@ -148,13 +148,13 @@ Theorem C10_source_no_panic : forall a b, wf a -> wf b ->
   SV.Extracted.RsInt.rs_percent a b <> SV.Rs.Prelude.RErr SV.Rs.Prelude.E_anyhow.
 Proof.
   intros a b Ha Hb. repeat split.
-  - exact (SV.Rs.Proofs.rs_left_shift_no_panic a b Ha Hb).
-  - exact (SV.Rs.Proofs.rs_floor_div_no_unreachable a b Ha Hb).
-  - exact (SV.Rs.Proofs.rs_percent_no_unreachable a b Ha Hb).
+  - exact (SV.Rs.ProofsInt.rs_left_shift_no_panic a b Ha Hb).
+  - exact (SV.Rs.ProofsInt.rs_floor_div_no_unreachable a b Ha Hb).
+  - exact (SV.Rs.ProofsInt.rs_percent_no_unreachable a b Ha Hb).
 Qed.
 
 Theorem C10_source_min_max : SV.Extracted.RsInline.rs_II_min_max_for_bits SV.Rs.Prelude.InlineInt_BITS = (imin, imax).
-Proof. exact SV.Rs.Proofs.rs_min_max_for_bits_eq. Qed.
+Proof. exact SV.Rs.ProofsInt.rs_min_max_for_bits_eq. Qed.
 
 (* + - * unary - & | ^ ~ and the ordering, as written in int_or_big.rs / bigint.rs today *)
 Theorem C10_source_arith_exact : forall a b, wf a -> wf b ->
@@ -167,4 +167,4 @@ Theorem C10_source_arith_exact : forall a b, wf a -> wf b ->
   (wf (SV.Extracted.RsInt.rs_bitxor a b) /\ den (SV.Extracted.RsInt.rs_bitxor a b) = Z.lxor (den a) (den b)) /\
   (wf (SV.Extracted.RsInt.rs_bitnot a) /\ den (SV.Extracted.RsInt.rs_bitnot a) = Z.lnot (den a)) /\
   SV.Extracted.RsInt.rs_cmp_sir a b = Z.compare (den a) (den b).
-Proof. exact SV.Rs.Proofs.source_arith_exact. Qed.
+Proof. exact SV.Rs.ProofsInt.source_arith_exact. Qed.
